@@ -425,7 +425,7 @@ struct Digit {
                     }
                 }
                 ///////////////////////////////////////////////////////////
-                if (number.Natural != 0) {
+                {
                     const SizeT32 e_p10_power =
                         (SizeT32(tmp_offset - start_offset) - SizeT32(!fraction_only && has_dot));
 
@@ -516,15 +516,17 @@ struct Digit {
                         is_negative_exp = true;
                     }
 
-                    if ((is_negative_exp && (exponent > e_p10_power) && ((exponent - e_p10_power) > SizeT32{324})) ||
-                        (!is_negative_exp && ((exponent + e_p10_power) > SizeT32{309}))) {
-                        return QNumberType::NotANumber;
-                    }
+                    if (number.Natural != 0) {
+                        if ((is_negative_exp && (exponent > e_p10_power) && ((exponent - e_p10_power) > SizeT32{324})) ||
+                            (!is_negative_exp && ((exponent + e_p10_power) > SizeT32{309}))) {
+                            return QNumberType::NotANumber;
+                        }
 
-                    if (is_negative_exp) {
-                        powerOfNegativeTen(number.Natural, exponent);
-                    } else {
-                        powerOfPositiveTen(number.Natural, exponent);
+                        if (is_negative_exp) {
+                            powerOfNegativeTen(number.Natural, exponent);
+                        } else if (!powerOfPositiveTen(number.Natural, exponent)) {
+                            return QNumberType::NotANumber; // Larger than the largest finite double.
+                        }
                     }
                 }
                 ///////////////////////////////////////
@@ -626,7 +628,7 @@ struct Digit {
     }
     /////////////////////////////////////////
     template <typename Number_T>
-    static void powerOfPositiveTen(Number_T &number, SizeT32 exponent) noexcept {
+    static bool powerOfPositiveTen(Number_T &number, SizeT32 exponent) noexcept {
         using UNumber_T  = SystemIntType;
         using DigitConst = DigitUtils::DigitConst<sizeof(UNumber_T)>;
         //////////////////////////////////////////////////////////////
@@ -666,9 +668,16 @@ struct Digit {
         SizeT64 exp = DigitUtils::RealNumberInfo<double, 8U>::Bias; // double only
         exp += bit;
         exp += shifted;
+
+        if (exp > SizeT64{2046}) {
+            return false; // 2^1024 or more.
+        }
+
         exp <<= 52U;
         number &= 0xFFFFFFFFFFFFFULL;
         number |= exp;
+
+        return true;
     }
     /////////////////////////////////////////
     template <typename Char_T>
